@@ -522,6 +522,13 @@ var fixedRenames = []fixedRename{
 	{"@(((bar, Bar) => foo & Bar & bar)(\"1\", \"2\"))", "foo", "bar"},
 	{"@(foreach(array(\"a\", \"b\"), (x) => ((ZZ8, zz8) => x & foo & zz8)(\"1\", \"2\")))", "foo", "zz8.json"},
 	{"@(((\u212a, k, K) => foo & k)(\"1\", \"2\", \"3\"))", "foo", "k"},
+	// nested functions that bind the SAME name: the inner one shadows the outer one and must go on doing so when the
+	// outer one is given a new name (seeded wave 5)
+	{"@(((bar) => ((bar) => bar)(1) & foo)(\"X\"))", "foo", "bar"},
+	{"@(((bar) => foo & ((Bar) => bar & BAR)(1))(\"X\"))", "foo", "bar"},
+	{"@(((bar) => ((bar) => bar & foo)(1) & bar)(\"X\"))", "foo", "bar"},
+	{"@(foreach(array(1, 2), (x) => foreach(array(3), (x) => x) & foo & x))", "foo", "x"},
+	{"@(((zz8) => ((y) => ((zz8) => zz8 & y)(2))(1) & foo.k)(\"X\"))", "foo", "zz8.json"},
 }
 
 // the names the rename oracle renames
@@ -566,7 +573,7 @@ func genTargetCapture(r *hx.Rand) string {
 	if r.Intn(4) == 0 {
 		p = strings.ToUpper(p[:1]) + p[1:]
 	}
-	switch r.Intn(7) {
+	switch r.Intn(8) {
 	case 0:
 		return "foreach(array(1, 2), (" + p + ") => " + v + " & " + p + ")"
 	case 1:
@@ -580,6 +587,14 @@ func genTargetCapture(r *hx.Rand) string {
 	case 4:
 		// the parameter shadows the name itself: nothing to rename inside
 		return "foreach(array(1, 2), (" + v + ", " + p + ") => " + v + " & " + p + ") & " + v
+	case 6:
+		// nested functions binding the same name: the inner one shadows, only the outer one has the name to be renamed
+		// in its body (or the other way round)
+		inner := "((" + p + ") => " + p + ")(1)"
+		if r.Intn(3) == 0 {
+			return "((" + p + ") => ((" + p + ") => " + p + " & " + v + ")(1) & " + p + ")(\"X\")"
+		}
+		return "((" + p + ") => " + inner + " & " + v + ")(\"X\")"
 	case 5:
 		// two parameters that differ only by case, called directly with different arguments
 		q := strings.ToUpper(p[:1]) + p[1:]
